@@ -18,6 +18,17 @@ parse.docstring) | argparse (an argparse-building function handed to parse.argpa
                                field names with nothing behind them
   doc:absent                   no docstring at all
   dup                          the same source appears again later in the sequence (A, B, A)
+  foreign:<style>              a docstring of one dialect whose PROSE (summary, a parameter's description, the return
+                               description) uses words that are section markers / field names of another dialect
+                               ("... Returns: a new list. Args: see below.", "see :return: of the base class",
+                               a "Returns\n-------" block after ReST fields): which dialect the text is read as must not
+                               depend on the process (hash seed) it is read in
+  xtype:<n>                    a family of n definitions, next to each other in the sequence, that each have a parameter
+                               whose default is EQUAL to the others' but of another type (1 / 1.0 / True / '1';
+                               0 / 0.0 / False / '0' / -0.0; 5 / 5.0 / '5'; ...), announced in the docstring (with or
+                               without a declared type), given in the signature / as a class attribute / as an argparse
+                               default: anything memoised on `==`/hash of a default leaks one definition's default
+                               (and its inferred type) into the next
 
 The sequences are drawn so that every kind occurs several times per process and empty / failing / multi-announcement
 points sit between ordinary ones."""
@@ -25,8 +36,8 @@ points sit between ordinary ones."""
 NAMES = ["dataset_name", "batch_size", "epochs", "lr", "momentum", "eps", "shuffle", "optimizer", "K", "as_numpy",
          "tfds_dir", "alpha", "verbose", "seed", "path", "centered", "n_jobs", "tol"]
 VALUES = {
-    "int": ["5", "0", "-1", "32", "10"],
-    "float": ["0.9", "0.5", "1e-07", "0.001", "2.5", "-0.25"],
+    "int": ["5", "0", "-1", "32", "10", "1"],
+    "float": ["0.9", "0.5", "1e-07", "0.001", "2.5", "-0.25", "1.0", "0.0"],
     "str": ["'adam'", '"mnist"', "'~/data'", "''"],
     "bool": ["True", "False"],
 }
@@ -45,6 +56,24 @@ SUMMARIES = ["Train a model", "Build a loader", "RMSprop-like optimiser", "Acqui
              "Config of the run", "Set up"]
 CLASS_NAMES = ["TrainConfig", "DataConfig", "C", "Optimizer", "Loader", "ModelOptions"]
 FUNC_NAMES = ["train", "f", "build_loader", "optimizer", "run", "fit"]
+
+
+# defaults that compare equal (and hash alike) across types
+XTYPE = [
+    [("int", "1"), ("float", "1.0"), ("bool", "True"), ("str", "'1'"), ("str", "'True'"), ("str", "'1.0'")],
+    [("int", "0"), ("float", "0.0"), ("bool", "False"), ("str", "'0'"), ("str", "'False'"), ("float", "-0.0"), ("str", "'0.0'")],
+    [("int", "5"), ("float", "5.0"), ("str", "'5'"), ("str", "'5.0'")],
+    [("int", "-1"), ("float", "-1.0"), ("str", "'-1'")],
+    [("int", "10"), ("float", "10.0"), ("float", "1e1"), ("str", "'10'")],
+]
+# prose that uses another dialect's section markers / field names, by the dialect the words belong to
+FOREIGN = {
+    "google": ["Returns: a new list, the input is left alone.", "Args: see below.", "Raises: nothing at all.",
+               "Kwargs: are passed on.", "Returns: nothing. Raises: nothing.", "Args:", "Returns:"],
+    "rest": ["Same as :param value: of the base class.", "See :return: there.", "Like :rtype: in Sphinx.",
+             "The :type of it: is free.", "Not a :cvar thing: at all.", "Uses :ivar state: internally."],
+    "numpydoc": ["Parameters\n----------", "Returns\n-------", "Returns\n-------\nnothing"],
+}
 
 
 def _family(phrase):
@@ -184,7 +213,7 @@ def _sig(rng, ps, first=None):
             s += ": " + p["typ"]
         if seen_default or rng.random() < 0.35:
             seen_default = True
-            s += (" = " if ":" in s else "=") + rng.choice(VALUES[p["typ"]] + ["None"])
+            s += (" = " if ":" in s else "=") + (p["value"] if p.get("value") and rng.random() < 0.8 else rng.choice(VALUES[p["typ"]] + ["None"]))
         parts.append(s)
     return ", ".join(parts)
 
@@ -215,7 +244,7 @@ def gen_class(rng, ps, tags, style, docstmt=None, inner=None):
         lines += [docstmt, ""]
     attrs = [p for p in ps if rng.random() < 0.8]
     for p in attrs:
-        lines.append("    %s: %s = %s" % (p["name"], p["typ"], rng.choice(VALUES[p["typ"]])))
+        lines.append("    %s: %s = %s" % (p["name"], p["typ"], p["value"] if p.get("value") and rng.random() < 0.8 else rng.choice(VALUES[p["typ"]])))
     if inner is not None:
         lines += ["", inner]
     if len(lines) == 1 or (not attrs and inner is None and not docstmt):
@@ -250,7 +279,7 @@ def gen_argparse(rng, ps, tags, docstmt=None):
         kws.append("help=%r" % (p["prose"] + p["sentence"]))
         r = rng.random()
         if p["how"] in ("1", "many") and r < 0.7:
-            kws.append("default=%s" % rng.choice(VALUES[p["typ"]]))
+            kws.append("default=%s" % (p["value"] if p.get("value") and rng.random() < 0.8 else rng.choice(VALUES[p["typ"]])))
         elif r < 0.3:
             kws.append("required=True")
         lines.append("    argument_parser.add_argument(%s)" % ", ".join(kws))
@@ -258,8 +287,108 @@ def gen_argparse(rng, ps, tags, docstmt=None):
     return "\n".join(lines) + "\n"
 
 
+def _foreign_phrase(rng, style):
+    """(the dialect the words belong to, prose using them), for a docstring written in `style`"""
+    other = rng.choice([o for o in ("rest", "google", "google", "numpydoc") if o != style] if style != "rest"
+                       else ["google", "google", "google", "numpydoc"])
+    return other, rng.choice(FOREIGN[other])
+
+
+def gen_foreign(rng, kind=None):
+    """a docstring-carrying point of one dialect whose prose uses another dialect's markers"""
+    kind = kind or rng.choice(["function", "function", "class", "docstring"])
+    style = rng.choice(["rest", "rest", "rest", "google", "numpydoc"])
+    ps, tags = gen_params(rng, allow_fail=False)
+    for p in ps:
+        p["sentence"] = p["sentence"].replace("\n", " ")
+    summary = rng.choice(SUMMARIES)
+    others = set()
+    where = rng.choice(["summary", "summary", "summary", "param", "returns", "summary+param"])
+    ret = rng.choice([None, ("int", "the result."), ("str", "Trained model")])
+    if "summary" in where:
+        k = rng.choice([1, 1, 2])
+        bits = []
+        for _ in range(k):
+            o, ph = _foreign_phrase(rng, style)
+            if "\n" in ph:                              # a numpydoc block goes on lines of its own
+                bits.append("\n\n" + ph + "\n")
+            else:
+                bits.append(" " + ph)
+            others.add(o)
+        summary = summary.rstrip() + ("" if summary.rstrip()[-1:] in ".:" or rng.random() < 0.2 else ".") + "".join(bits)
+    if "param" in where:
+        o, ph = _foreign_phrase(rng, style)
+        if "\n" not in ph:
+            q = rng.choice(ps)
+            q["prose"] = q["prose"].rstrip(".") + ". " + ph
+            others.add(o)
+    if where == "returns":
+        o, ph = _foreign_phrase(rng, style)
+        if "\n" not in ph:
+            ret = (rng.choice(["int", "str", "List[int]"]), "scaled numbers. " + ph)
+            others.add(o)
+    if not others:
+        o, ph = _foreign_phrase(rng, "rest" if style == "rest" else style)
+        summary = summary.rstrip() + " " + ph.replace("\n", " ")
+        others.add(o)
+    tags = ["style:" + style] + tags + sorted("foreign:" + o for o in others)
+    doc = render_doc(rng, style, summary, ps, ret, field="cvar" if (kind == "class" and style == "rest") else "param")
+    if kind == "docstring":
+        return {"kind": kind, "src": doc, "tags": tags}
+    if kind == "function":
+        return {"kind": kind, "src": gen_function(rng, ps, tags, style, docstmt=_quote(doc, "    ")), "tags": tags}
+    return {"kind": kind, "src": gen_class(rng, ps, tags, style, docstmt=_quote(doc, "    ")), "tags": tags}
+
+
+def gen_xtype_family(rng):
+    """2..4 points, each with one parameter whose default is equal to the others' but of another type"""
+    cls = rng.choice(XTYPE)
+    members = rng.sample(cls, rng.choice([2, 2, 3, min(4, len(cls))]))
+    if rng.random() < 0.5:                               # the same family under one parameter name, or under several
+        names = [rng.choice(NAMES)] * len(members)
+    else:
+        names = [rng.choice(NAMES) for _ in members]
+    n = len(members)
+    pts = []
+    for (typ, value), name in zip(members, names):
+        for _ in range(20):
+            kind = rng.choice(["function", "function", "class", "class", "docstring", "argparse"])
+            style = rng.choice(["rest", "rest", "google", "numpydoc"])
+            ps, tags = gen_params(rng, allow_fail=False)
+            ps = [p for p in ps if p["name"] != name]
+            # where the default is stated: announced in the prose, in the code (signature / attribute / default=), or both
+            where = rng.choice(["doc", "doc", "doc", "code", "both"])
+            phrase = rng.choice(PHRASES[:3])[0]
+            x = {"name": name, "typ": typ, "prose": NOUNS[NAMES.index(name)] + rng.choice([".", ".", ""]), "how": "1",
+                 "sentence": (" " + phrase + value + rng.choice(["", "", "."])) if where != "code" else "",
+                 "show_typ": rng.random() < 0.5}
+            if where != "doc":
+                x["value"] = value
+            if x["sentence"].endswith(value + ".") and typ in ("int", "float") and "." not in value:
+                pass                                     # "Defaults to 1." reads as a float: a near miss worth having
+            ps.insert(rng.randint(0, len(ps)), x)
+            tags = ["style:" + style] + tags + ["xtype:%d" % n, "xtype-default:" + where]
+            if kind == "docstring":
+                ret = rng.choice([None, ("int", "the result."), ("str", "Trained model")])
+                pt = {"kind": kind, "src": render_doc(rng, style, rng.choice(SUMMARIES), ps, ret), "tags": tags}
+            elif kind == "function":
+                pt = {"kind": kind, "src": gen_function(rng, ps, tags, style), "tags": tags}
+            elif kind == "argparse":
+                pt = {"kind": kind, "src": gen_argparse(rng, ps, [t for t in tags if not t.startswith("style:")]),
+                      "tags": [t for t in tags if not t.startswith("style:")]}
+            else:
+                doc = render_doc(rng, style, rng.choice(SUMMARIES), ps, None, field="cvar" if style == "rest" else "param")
+                pt = {"kind": kind, "src": gen_class(rng, ps, tags, style, docstmt=_quote(doc, "    ")), "tags": tags}
+            if _parses(pt):
+                pts.append(pt)
+                break
+    return pts
+
+
 def gen_point(rng, kind=None, force=None):
-    """one point of the new strata.  force: None | many | fails | degenerate"""
+    """one point of the new strata.  force: None | many | fails | degenerate | foreign"""
+    if force == "foreign":
+        return gen_foreign(rng, kind)
     kind = kind or rng.choice(["function", "function", "class", "class", "docstring", "argparse"])
     style = rng.choice(["rest", "google", "numpydoc"])
     if force == "fails" and rng.random() < 0.7:
@@ -327,10 +456,15 @@ def gen(rng, n, filler=None):
     for k in range(n):
         r = k % 10
         plan.append({0: "fails", 1: "many", 2: "degenerate", 3: "degenerate", 4: "many"}.get(r, None if r < 8 else "filler"))
+    # on top of the n points above: one foreign-marker point per 10 and one equal-across-types family per 16
+    plan += ["foreign"] * max(2, n // 10) + ["xtype"] * max(2, n // 16)
     rng.shuffle(plan)
     for k, force in enumerate(plan):
         if force == "filler" and filler is not None:
             pts.append(filler(rng))
+            continue
+        if force == "xtype":
+            pts.extend(gen_xtype_family(rng))
             continue
         for _ in range(20):
             kind = kinds[k % 4] if force in ("degenerate", "many") else None
